@@ -101,6 +101,20 @@ Proof.
   - destruct u; apply IH; exact Hr.
 Qed.
 
+Lemma existsb_filter_false {A} (f p : A -> bool) : forall l, existsb f l = false -> existsb f (filter p l) = false.
+Proof.
+  induction l as [|x l IH]; simpl; intro H; [reflexivity|].
+  apply orb_false_iff in H. destruct H as [Hx Hl].
+  destruct (p x); simpl; [rewrite Hx; simpl|]; apply IH; exact Hl.
+Qed.
+
+Lemma existsb_bfs_false (f : str * str -> bool) D items :
+  existsb f items = false -> existsb f (bfs D items) = false.
+Proof.
+  intro H. unfold bfs. rewrite existsb_app.
+  rewrite !existsb_filter_false by exact H. reflexivity.
+Qed.
+
 (* the stored default of d is read only where a value for d is adapted, and only by the pinned code *)
 Lemma d_assign_dd fx dd dd2 ip c fa fb bad :
   fx_dd fx = true -> d_assign fx dd ip c fa fb bad = d_assign fx dd2 ip c fa fb bad.
@@ -191,9 +205,11 @@ Proof.
     destruct (pd_cfg (d_root D)); [|apply IH; assumption].
     assert (Gi : fx_dd fx = true \/ dd = dd2 \/ items_mention_d items = false).
     { destruct G as [G|[G|G]]; auto. simpl in G. apply orb_false_iff in G. tauto. }
-    rewrite (apply_items_dd fx dd dd2 D (negb (fx_sh fx)) UKeep items c Gi).
-    rewrite (apply_items_dd fx dd dd2 D (negb (fx_sh fx)) UKeep items ic0 Gi).
-    destruct (apply_items _ UKeep c items) as [c'|c']; [|reflexivity].
+    assert (Gb : fx_dd fx = true \/ dd = dd2 \/ items_mention_d (bfs D items) = false).
+    { destruct Gi as [Gi|[Gi|Gi]]; auto. right; right. apply existsb_bfs_false. exact Gi. }
+    rewrite (apply_items_dd fx dd dd2 D (negb (fx_sh fx)) UKeep (bfs D items) c Gb).
+    rewrite (apply_items_dd fx dd dd2 D (negb (fx_sh fx)) UKeep (bfs D items) ic0 Gb).
+    destruct (apply_items _ UKeep c (bfs D items)) as [c'|c']; [|reflexivity].
     consume_cases cv cv2 Hc.
     + destruct Hc; subst; reflexivity.
     + apply IH; assumption.
@@ -219,7 +235,7 @@ Proof.
   - destruct (str_eqb n s_help); [reflexivity|].
     destruct (str_eqb n s_print_config && pd_cfg (d_root D)); apply IH; exact F.
   - destruct (pd_cfg (d_root D)); [|apply IH; exact F].
-    destruct (apply_items _ UKeep c items) as [c'|c']; [|reflexivity].
+    destruct (apply_items _ UKeep c (bfs D items)) as [c'|c']; [|reflexivity].
     destruct (consume _ _ _ _ _ _ _ _ _) as [[[o1 p1] c1]|]; [reflexivity|apply IH; exact F].
   - destruct (d_subs D) as [|sp sps] eqn:Es; [apply IH; exact F|].
     destruct (alookup n (sp :: sps)); [|reflexivity].
@@ -277,15 +293,17 @@ Proof.
   intros Hp Hs Hd. unfold exec_items.
   assert (Ep : v_pending v = PNone) by (destruct (v_pending v); [reflexivity|discriminate|discriminate]).
   rewrite Ep. change (v_pending v0) with PNone. change (v_shtab v0) with false. change (v_ddef v0) with (@None dv).
-  assert (E : apply_items (apply_item fx (v_ddef v) D (v_shtab v && negb (fx_sh fx))) u ic0 items =
-              apply_items (apply_item fx None D (false && negb (fx_sh fx))) u ic0 items).
-  { rewrite (apply_items_dd fx (v_ddef v) None D (v_shtab v && negb (fx_sh fx)) u items ic0 Hd).
+  assert (Hd' : fx_dd fx = true \/ v_ddef v = None \/ items_mention_d (bfs D items) = false).
+  { destruct Hd as [Hd|[Hd|Hd]]; auto. right; right. apply existsb_bfs_false. exact Hd. }
+  assert (E : apply_items (apply_item fx (v_ddef v) D (v_shtab v && negb (fx_sh fx))) u ic0 (bfs D items) =
+              apply_items (apply_item fx None D (false && negb (fx_sh fx))) u ic0 (bfs D items)).
+  { rewrite (apply_items_dd fx (v_ddef v) None D (v_shtab v && negb (fx_sh fx)) u (bfs D items) ic0 Hd').
     destruct Hs as [F|[F|F]].
     - rewrite F. rewrite !andb_false_r. reflexivity.
     - rewrite F. reflexivity.
-    - apply apply_items_noshtab; exact F. }
+    - apply apply_items_noshtab. apply existsb_bfs_false. exact F. }
   rewrite E. clear E.
-  destruct (apply_items _ u ic0 items) as [c|c]; [|reflexivity].
+  destruct (apply_items _ u ic0 (bfs D items)) as [c|c]; [|reflexivity].
   pose proof (parse_common_sim D PNone None c (v_cv v) (v_cv v0)) as P. unfold pc_core in P.
   destruct (parse_common D PNone None c (v_cv v)) as [[o p] cv'].
   destruct (parse_common D PNone None c (v_cv v0)) as [[o2 p2] cv2].
@@ -370,7 +388,7 @@ Lemma exec_items_pending fx D v u items :
   v_pending v = PNone -> w_pending (snd (exec_items fx D v u items)) = PNone.
 Proof.
   intro E. unfold exec_items.
-  destruct (apply_items _ u ic0 items) as [c|c]; [|exact E].
+  destruct (apply_items _ u ic0 (bfs D items)) as [c|c]; [|exact E].
   rewrite E. pose proof (parse_common_pnone D None c (v_cv v)) as P.
   destruct (parse_common D PNone None c (v_cv v)) as [[o p] cv']. simpl in *. exact P.
 Qed.
